@@ -27,6 +27,7 @@ pub fn world() -> Hierarchy<Arc<Relation>> {
     let users: Relation = Relation::table().name("users").schema(vec![
         ("id", DataType::integer_interval(0, 1000), Some(PK)), ("age", DataType::integer_interval(0, 100), None),
         ("city", DataType::text_values(["A".to_string(), "B".to_string(), "C".to_string()]), None), ("income", DataType::float_interval(0., 1000.), None),
+        ("seg", DataType::text_values(["p".to_string(), "q".to_string()]), None),   // a second column with a declared finite value set
     ].into_iter().collect::<qrlew::relation::Schema>()).size(1000).build();
     let orders: Relation = Relation::table().name("orders").schema(vec![
         ("id", DataType::integer_interval(0, 10000), Some(PK)), ("user_id", DataType::integer_interval(0, 1000), None),
